@@ -156,6 +156,30 @@ func (s *session) applyFault(line, class string, echo bool) bool {
 		s.w("%s\r\n", text)
 		s.lastStatus = 1
 		return true
+	case "warn-error":
+		// Notices the tool is told to tolerate, followed by a refusal.
+		s.event(line, class, "fault:warn-error")
+		if echo {
+			s.w("%s\r\n", line)
+		}
+		cmd := strings.TrimPrefix(line, "no ")
+		switch {
+		case s.spec.Type == "asa" && strings.HasPrefix(cmd, "access-list"):
+			s.w("WARNING: Same object-group is used more than once in one config line. This config is redundant.\r\n")
+		case s.spec.Type == "asa" && strings.HasPrefix(cmd, "crypto map"):
+			s.w("WARNING: The crypto map entry is incomplete!\r\n")
+		case s.spec.Type == "asa" && strings.HasPrefix(cmd, "tunnel-group"):
+			s.w("WARNING: L2L tunnel-groups that have names which are not an IP\r\naddress may only be used if the tunnel authentication\r\nmethod is Digital Certificates and/or The peer is\r\nconfigured to use Aggressive Mode\r\n")
+		default:
+			s.w("INFO: configuration session is being recorded\r\n")
+		}
+		if s.spec.Type == "asa" {
+			s.w("ERROR: Unable to add, configuration limit reached\r\n")
+		} else {
+			s.w("%% Configuration limit reached, command rejected\r\n")
+		}
+		s.lastStatus = 1
+		return true
 	case "garbage":
 		s.event(line, class, "fault:garbage")
 		if echo {
